@@ -91,15 +91,15 @@ mod verif_buffer {
         kani::cover!(pos == 1);
     }
 
-    // push: complete in pos, chunk length 0..=24 (bounded in the chunk length only)
+    // push: complete in pos, chunk length 0..=6 (bounded in the chunk length only)
     #[kani::proof]
     fn proof_buffer_push() {
         let mut b = Buffer::default();
         let old = any_buffer(&mut b);
         let (pos, bm) = (b.pos, b.bookmark);
-        let chunk: [u8; 24] = kani::any();
+        let chunk: [u8; 6] = kani::any();
         let n: usize = kani::any();
-        kani::assume(n <= 24);
+        kani::assume(n <= 6);
         let r = b.push(&chunk[..n]);
         assert!(b.pos <= MAX_SIZE && b.bookmark == bm);
         if pos < n {
@@ -114,7 +114,7 @@ mod verif_buffer {
             }
             assert!(frame_ok(&b, &old, pos));
         }
-        kani::cover!(n == 24 && pos == 24);
+        kani::cover!(n == 6 && pos == 6);
     }
 
     fn tag_len_ref(tag: u8, v: usize, k: usize) -> u8 {
@@ -158,16 +158,16 @@ mod verif_buffer {
         kani::cover!(v == 255 && pos == 3);
     }
 
-    // push_tagged: data length 0..=24; on Err the buffer is either untouched or holds the data without header
+    // push_tagged: data length 0..=6; on Err the buffer is either untouched or holds the data without header
     #[kani::proof]
     fn proof_buffer_push_tagged() {
         let mut b = Buffer::default();
         let old = any_buffer(&mut b);
         let (pos, bm) = (b.pos, b.bookmark);
         let tag: u8 = kani::any();
-        let chunk: [u8; 24] = kani::any();
+        let chunk: [u8; 6] = kani::any();
         let n: usize = kani::any();
-        kani::assume(n <= 24);
+        kani::assume(n <= 6);
         let hl = tag_len_size(n);
         let r = b.push_tagged(tag, &chunk[..n]);
         assert!(b.pos <= MAX_SIZE && b.bookmark == bm);
@@ -185,7 +185,7 @@ mod verif_buffer {
             }
             assert!(frame_ok(&b, &old, pos));
         }
-        kani::cover!(n == 24);
+        kani::cover!(n == 6);
     }
 
     #[kani::proof]
